@@ -7,6 +7,11 @@ Stage B (correspondence with Model/History.v):
     with operands that make the assertions fail) on integer-valued tensors: the state machine [step_opt] is run at Z[i] inside
     Coq; at every step the object it writes must equal the implementation's exactly (qd, every qD, every tensor entry) and
     satisfy the invariant evaluated in Coq; exceptions must coincide with [None]; the final pools must be equal (form E).
+  * 'zsplit' cases — histories of merge + split (all three distributions, tol 0 and 1/4), +, - and constructors on ZERO states
+    and on states in an unreachable charge sector, restricted to steps whose merged tensor is identically zero: the state
+    machine is run over Q[i] with the SplitMerge step = the mirror of split_matrix_svd as it stands (Model/BondOpsF5.v, dummy
+    bond also for matrices without rows; bond dimension 0 when charges are shared) and every written object is compared
+    exactly (Model/HistoryZero.v zsplit_check; form E).
   * 'hist' cases — LAPACK-dependent histories are compared at the level of the invariant: the sparsity pattern (charges, shapes,
     1 where the entry is non-zero) of every pool object after every step is shipped to Coq and [mps_ok] / [mpo_ok] is evaluated
     on it over the integers; the boundary charges before / after total-charge-keeping steps are compared with [boundary_eqb].
@@ -17,7 +22,8 @@ import gen as G
 import emit as E
 
 PROP = 'C02'
-COQ_IMPORTS = ['PT.Base.Scalar', 'PT.Base.BigSum', 'PT.Base.Mx', 'PT.Model.Tensor', 'PT.Model.MPSOps', 'PT.Model.History']
+COQ_IMPORTS = ['PT.Base.Scalar', 'PT.Base.Field', 'PT.Base.BigSum', 'PT.Base.Mx', 'PT.Model.Tensor', 'PT.Model.MPSOps', 'PT.Model.History',
+               'PT.Model.BondOps', 'PT.Model.BondOpsF5', 'PT.Model.HistoryZero']
 COQ_PREAMBLE = '''
 Definition gmx := @mkmx GIring.
 Definition gmps := @mkmps GIring.
@@ -34,46 +40,65 @@ Definition GMulMpo := @MulMpo GIring.   Definition GApply := @Apply GIring.
 Definition GIdentity := @Identity GIring.
 Definition GOutMps := @OutMps GIring.   Definition GOutMpo := @OutMpo GIring.   Definition GOutErr := @OutErr GIring.
 Definition gi (a b : Z) : GIring := (a, b).
+Definition qmx := @mkmx (Cx QcF).
+Definition qmps := @mkmps (Cx QcF).
+Definition Qstate := @mkstate (Cx QcF).
+Definition QSplitMerge := @SplitMerge (Cx QcF).   Definition QNewMps := @NewMps (Cx QcF).
+Definition QAddMps := @AddMps (Cx QcF).   Definition QSubMps := @SubMps (Cx QcF).
+Definition QOutMps := @OutMps (Cx QcF).   Definition QOutErr := @OutErr (Cx QcF).
 '''
 FORM = ('E for ring operations (whole histories replayed by the state machine of Model/History.v at Z[i], every written object '
-        'compared exactly and the invariant evaluated in Coq) + invariant evaluated in Coq on the sparsity pattern of every pool '
-        'object after every step of the LAPACK-dependent histories')
+        'compared exactly and the invariant evaluated in Coq) + E for zero-tensor split histories (state machine over Q[i] with the '
+        'mirror of split_matrix_svd, Model/BondOpsF5.v / HistoryZero.v) + invariant evaluated in Coq on the sparsity pattern of every '
+        'pool object after every step of the LAPACK-dependent histories')
 RULE = ('seeded random histories (3..12 steps quick, up to 40 thorough) over a pool of MPS/MPO sharing physical charges '
         '(U(1) charges of XXZ / Bose-Hubbard, encoded pairs of Fermi-Hubbard, random charges, all-zero), operations: constructors, '
         'orthonormalize, compress, +, -, @, apply_operator, from_opgraph/Hamiltonian constructors, split/merge, from_vector, '
         'TDVP single/two-site, DMRG single/two-site; after EVERY step all pool objects are checked by an independent is_qsparse and '
         'length test; non-trivial = history contains >= 3 distinct operation kinds; distinct by (model, seed).  Ring cases: '
         'integer-valued pools (L 1..4, d 2..3, charge classes zero/sorted/unsorted/repeated/big, a third state in another charge '
-        'sector so that assertions fail), 4..8 ring operations with Gaussian-integer alpha / scale / fill')
+        'sector so that assertions fail), 4..8 ring operations with Gaussian-integer alpha / scale / fill.  zsplit cases: a zero '
+        'state and a state in an unreachable charge sector (L 2..4, d 2..3), 3..8 operations among merge+split (left/right/sqrt, '
+        'tol 0 or 1/4; only when the merged tensor is zero), +, -, constructors; non-trivial = at least one split performed')
 TRUSTED = ['hand-written Gallina state machine Model/History.v on top of Model/MPSOps.v, Model/GraphMPO.v (ring operations) — tied '
            'to /repo by the exact replay of ring histories; oracles stand for the LAPACK-dependent operations',
+           'Model/BondOpsF5.v (mirror of split_matrix_svd after fix F5) — tied to /repo on zero matrices by the exact replay of the '
+           'zsplit histories, equal to the C12 mirror Model/BondOps.v block_svd on every matrix with a row (C02_block_svd5_agrees)',
            'python emitters harness/emit.py and the pattern extraction in harness/props/c02.py (entry != 0 -> 1)']
-PARTIAL = ('proved (Properties/C02.v, 57 theorems closed under the global context; every commutative ring with conjugation, all L, d, '
+PARTIAL = ('proved (Properties/C02.v, 80 theorems closed under the global context; every commutative ring with conjugation, all L, d, '
            'bond profiles, charges): the invariant is preserved by add_mps, add_mpo, multiply_mpo, apply_operator (and their sparsity '
            'assertions can never fire on operands satisfying it), established by MPO.identity, the MPS/MPO constructors, '
-           'MPO.from_opgraph, MPS.from_vector (given chained shapes), kept by merge + split under C12\'s contract (valid input proved), '
-           'hence by every history of ring operations with no hypothesis.  Round 3: NO hypothesis of the form "the result is block '
-           'sparse" is left in the history theorem (C02_history_inv): orthonormalize (MPS/MPO, both modes, C01), compress (both modes, '
-           'C13), split (C12) and ALL FOUR sweep functions -- single-site AND two-site TDVP / DMRG whole runs, any number of steps / '
-           'sweeps -- are their executable models, and the hypotheses are contracts of the numerical primitives on the calls actually '
-           'issued: LAPACK QR / SVD / argsort / abs for orthonormalize and compress, C11\'s conclusion for bond_ops.qr, C12\'s conclusion '
-           'for split_mps_tensor (block sparse factors under the returned bond charges), and for the Krylov local solvers only "the '
-           'call returns" (zero patterns pass through Lanczos / Arnoldi / eigh_krylov / expm_krylov with NO contract on norm, '
-           'eigh_tridiagonal, exp; also on the merged two-site tensor with the merged MPO tensor, C02_merge_mpo_ok).  The sweep models '
-           'keep every site tensor block sparse under the CURRENT qD and every environment block under (psi.qD, H.qD, psi.qD) after '
-           'each local update (the prologue assertion on BR cannot fire).  Boundary (total) charges: sums copy, products take outer '
-           'sums, merge+split keeps, orthonormalize and compress (both modes, non-zero amplitude, L*tol < 1 or scale != 0) keep both; '
-           'both TDVP integrators keep both for a state with a non-zero amplitude with NO hypothesis on solver / QR / split calls (the '
-           'sweeps rebind inner bonds only); both DMRG functions keep both (the closing QR of a sweep rebinds qD[0] to itself because the '
-           'centre tensor has norm one) relative to the contracts of C02 and C10 on the issued calls.  NOT proved, validated per run: '
-           'that solver calls return and the operator is charge neutral with non-empty bonds (hypotheses sweep_pre of the sweep '
-           'theorems); the split contract for an identically zero merged tensor (C12_split_mps_zero gives shapes only); DMRG total charge '
-           'with a truncating split (tol_split > 0); from_vector\'s shapes; the Hamiltonian '
+           'MPO.from_opgraph, MPS.from_vector (given chained shapes), kept by merge + split, hence by every history of ring operations '
+           'with no hypothesis.  NO hypothesis of the form "the result is block sparse" is left in the history theorem: '
+           'orthonormalize (MPS/MPO, both modes, C01), compress (both modes, C13), split and ALL FOUR sweep functions -- single-site '
+           'AND two-site TDVP / DMRG whole runs, any number of steps / sweeps -- are their executable models, and the hypotheses are '
+           'contracts of the numerical primitives on the calls actually issued: LAPACK QR / SVD / argsort / abs for orthonormalize, '
+           'compress and split, C11\'s conclusion for bond_ops.qr, and for the Krylov local solvers only "the call returns" (zero '
+           'patterns pass through Lanczos / Arnoldi / eigh_krylov / expm_krylov with NO contract on norm, eigh_tridiagonal, exp).  '
+           'Round 4: (1) ZERO-TENSOR SPLIT closed -- split_matrix_svd on an all-zero / charge-forbidden matrix (dummy bond, also for a '
+           'matrix without rows after fix F5: Model/BondOpsF5.v; bond dimension 0 when charges are shared and LAPACK returns zero '
+           'singular values) meets the split contract for every tolerance, so C02_history_inv_all_splits has the executable model as '
+           'the result function of SplitMerge and only LAPACK\'s SVD / argsort contract as hypothesis (also for the split calls of the '
+           'two-site sweeps); the model is replayed against the implementation on zero-state histories (cases zsplit, exact).  '
+           '(2) DMRG TOTAL CHARGE FOR EVERY tol_split < 1 closed -- invariant "mixed canonical and not zero" instead of "norm one"; '
+           'the weak split contract (kept part not zero, orthonormal factor an isometry) is a theorem for the model from C12\'s error '
+           'bound (C02_truncated_split_keeps_nonzero), so C02_total_charge_kept_dmrg2_every_tol has LAPACK-level hypotheses only on the '
+           'split calls.  (3) SOLVER CALLS RETURN made precise -- a Krylov solver call (Hamiltonian step, bond step, eigensolver, '
+           'repaired eigensolver) returns iff numiter >= 1 and numpy.linalg.norm answers a positive value, i.e. (norm\'s contract on '
+           'that one call) iff the start tensor is not zero; for whole two-site DMRG runs the start tensors are not zero because the '
+           'state is not, hence every eigensolver call returns (C02_dmrg2_eigensolver_calls_return_partial).  Boundary (total) '
+           'charges: sums copy, products take outer sums, merge+split keeps, orthonormalize and compress keep (non-zero amplitude, '
+           'L*tol < 1 or scale != 0), both TDVP integrators keep with NO hypothesis on solver / QR / split calls, both DMRG functions '
+           'keep.  NOT proved, validated per run: the whole-run form of "solver calls return" for TDVP (both) and single-site DMRG '
+           '(per-call characterisation and trace-level reduction are proved; the non-zero start tensors follow from C08/C10 '
+           'invariants that are not exported per call); that the operator is charge neutral with non-empty bonds (hypothesis '
+           'sweep_pre; needed: otherwise apply_local_hamiltonian leaves the sector); from_vector\'s shapes; the Hamiltonian '
            'constructors up to from_opgraph (C05-C07)')
 ASSUMPTIONS = ['float64 arithmetic on integers below 2^50 is exact (ring histories stop before entries exceed it)',
-               'oracle contracts as listed in Properties/C02.v (C02_history_inv: C12 for split_matrix_svd / split_mps_tensor, LAPACK QR / SVD / argsort / '
-               'abs contracts for orthonormalize and compress, C11\'s conclusion for the QR calls of the sweeps, "the Krylov call returns" for the '
-               'local solvers; for the DMRG total-charge theorem additionally C10\'s Ritz / exact-split / QR-factorisation contracts)']
+               'oracle contracts as listed in Properties/C02.v (C02_history_inv_all_splits: LAPACK QR / SVD / argsort / abs contracts for '
+               'orthonormalize, compress and split_matrix_svd on the calls issued, C11\'s conclusion for the QR calls of the sweeps, "the '
+               'Krylov call returns" = numiter >= 1 and non-zero start tensor for the local solvers; for the DMRG total-charge theorems '
+               'additionally: Ritz vector not zero and of the right shape, QR factorisation -- C10\'s exact-split contract is no longer needed)']
 IMPL_PARALLEL = True
 SHARD = 12
 
@@ -94,7 +119,15 @@ def cases(rng, tier):
         out.append({'kind': 'ring', 'seed': rng.getrandbits(30), 'L': rng.choice([1, 2, 2, 3, 3, 4]), 'd': rng.choice([2, 2, 3]),
                     'qclass': rng.choice(['unsorted', 'unsorted', 'sorted', 'zero', 'repeated', 'big']),
                     'ops': [rng.choice(RING_OPS) for _ in range(rng.randint(4, 8))]})
+    nz = {'quick': 120, 'thorough': 600, 'search': 120}[tier]
+    for k in range(nz):
+        out.append({'kind': 'zsplit', 'seed': rng.getrandbits(30), 'L': rng.choice([2, 3, 3, 4]), 'd': rng.choice([2, 2, 3]),
+                    'qclass': rng.choice(['unsorted', 'unsorted', 'sorted', 'zero', 'repeated']),
+                    'ops': [rng.choice(ZS_OPS) for _ in range(rng.randint(3, 8))]})
     return out
+
+
+ZS_OPS = ['split', 'split', 'split', 'split', 'sub', 'add', 'new_zero', 'new_forbidden']
 
 
 RING_OPS = ['add', 'add', 'sub', 'apply', 'apply', 'mpo_add', 'mpo_sub', 'mpo_mul', 'identity', 'new_state', 'new_op', 'add_other_sector']
@@ -105,7 +138,8 @@ INT_CAP = float(2 ** 50)
 def _ser(obj):
     """MPS / MPO with integer-valued entries -> JSON (real and imaginary parts as nested int lists)"""
     return {'qd': [int(x) for x in obj.qd], 'qD': [[int(x) for x in q] for q in obj.qD],
-            'Ar': [np.real(a).astype(np.int64).tolist() for a in obj.A], 'Ai': [np.imag(a).astype(np.int64).tolist() for a in obj.A]}
+            'Ar': [np.real(a).astype(np.int64).tolist() for a in obj.A], 'Ai': [np.imag(a).astype(np.int64).tolist() for a in obj.A],
+            'shapes': [list(np.asarray(a).shape) for a in obj.A]}      # nested lists lose the shape of arrays with an empty bond
 
 
 def _pattern(kind, obj):
@@ -228,6 +262,94 @@ def impl_ring(case):
     return {'trace': trace, 'violations': viol, 'init': init, 'steps': steps, 'final': final}
 
 
+def impl_zsplit(case):
+    """merge + split / add / sub / constructors on zero and charge-forbidden states; only steps whose merged tensor is zero"""
+    import warnings
+    warnings.simplefilter('ignore')
+    import pytenet as ptn
+    from pytenet.mps import add_mps, split_mps_tensor, merge_mps_tensor_pair
+    rs = np.random.default_rng(case['seed'])
+    L, d, qc = case['L'], case['d'], case['qclass']
+    qd = np.zeros(d, dtype=int) if qc == 'zero' else rs.integers(-1, 2, size=d)
+
+    def template():
+        return G.rand_mps(rs, L, d, qclass=qc, Dmax=3, dtype='complex', entries='int', qd=qd.copy())
+
+    def zero_qD():
+        return [np.array(q).copy() for q in template().qD]
+
+    def forbidden_qD():
+        qD = [np.array(q).copy() for q in template().qD]
+        qD[-1] = qD[-1] + 2 * L + 3          # |sum of L physical charges| <= L: this total cannot be reached
+        return qD
+    fills = [0, int(rs.integers(1, 4))]
+    qDs = [zero_qD(), forbidden_qD()]
+    states = [ptn.MPS(qd, [q.copy() for q in qDs[0]], fill=fills[0]), ptn.MPS(qd, [q.copy() for q in qDs[1]], fill=fills[1])]
+    init = {'states': [_ser(x) for x in states], 'ops': []}
+    steps, viol, trace = [], [], []
+    for step, name in enumerate(case['ops']):
+        i = int(rs.integers(0, len(states))); j = int(rs.integers(0, len(states)))
+        sdst = int(rs.integers(0, min(len(states) + 1, 5)))
+        alpha = complex(int(rs.integers(-2, 3)), int(rs.integers(-2, 3)))
+        rec = None
+        try:
+            if name == 'split':
+                k = int(rs.integers(0, L - 1))
+                distr = int(rs.integers(0, 3)); tag = int(rs.integers(0, 2))
+                psi = states[i]
+                merged = merge_mps_tensor_pair(psi.A[k], psi.A[k + 1])
+                if np.any(merged != 0):
+                    trace.append('split(skipped)')
+                    continue
+                rec = {'op': 'SplitMerge', 'args': [i, k, distr, tag]}
+                A0, A1, qb = split_mps_tensor(merged, psi.qd, psi.qd, [psi.qD[k], psi.qD[k + 2]], ['left', 'right', 'sqrt'][distr],
+                                              [0.0, 0.25][tag])
+                psi.A[k], psi.A[k + 1], psi.qD[k + 1] = A0, A1, qb
+                res = psi; dst = i
+                name = 'split_%s_%s' % ('zerobond' if len(qb) == 0 else 'dummy', ['left', 'right', 'sqrt'][distr])
+            elif name in ('sub', 'add'):
+                if max(x + y for x, y in zip(states[i].bond_dims, states[j].bond_dims)) > 16:
+                    continue
+                if name == 'sub':
+                    rec = {'op': 'SubMps', 'args': [sdst, i, j]}
+                    res = states[i] - states[j]
+                else:
+                    rec = {'op': 'AddMps', 'args': [sdst, i, j], 'alpha': [alpha.real, alpha.imag]}
+                    res = add_mps(states[i], states[j], alpha=alpha)
+                dst = sdst
+            elif name in ('new_zero', 'new_forbidden'):
+                qD = zero_qD() if name == 'new_zero' else forbidden_qD()
+                fill = 0 if name == 'new_zero' else int(rs.integers(1, 4))
+                rec = {'op': 'NewMps', 'args': [sdst], 'qd': [int(x) for x in qd], 'qD': [[int(x) for x in q] for q in qD],
+                       'fill': [fill, 0]}
+                res = ptn.MPS(qd, [q.copy() for q in qD], fill=fill); dst = sdst
+            else:
+                continue
+        except AssertionError:
+            rec['out'] = 'err'
+            steps.append(rec); trace.append(name + '(assert)')
+            continue
+        except Exception as e:
+            viol.append('step %d (%s) raised %s: %s' % (step, name, type(e).__name__, str(e)[:160]))
+            break
+        if not _intvalued(res):
+            viol.append('step %d (%s): result not integer valued' % (step, name))
+            break
+        rec['out'] = 'mps'
+        rec['res'] = _ser(res)
+        steps.append(rec); trace.append(name)
+        if dst < len(states):
+            states[dst] = res
+        else:
+            states.append(res)
+        m = G.mps_sparsity_ok(res)
+        if m:
+            viol.append('after step %d (%s): result: %s' % (step, name, m))
+            break
+    final = {'states': [_ser(x) for x in states], 'ops': []}
+    return {'trace': trace, 'violations': viol, 'init': init, 'steps': steps, 'final': final}
+
+
 def _hamiltonian(case, rs, qd=None):
     import pytenet as ptn
     L, m = case['L'], case['model']
@@ -254,6 +376,8 @@ def _state(rs, H, Dmax=3, qclass='unsorted'):
 def impl(case):
     if case.get('kind') == 'ring':
         return impl_ring(case)
+    if case.get('kind') == 'zsplit':
+        return impl_zsplit(case)
     import warnings
     warnings.simplefilter('ignore')
     import pytenet as ptn
@@ -437,6 +561,8 @@ def _unser(o):
     x = _Obj()
     x.qd = o['qd']; x.qD = o['qD']
     x.A = [np.asarray(ar, dtype=float) + 1j * np.asarray(ai, dtype=float) for ar, ai in zip(o['Ar'], o['Ai'])]
+    if 'shapes' in o:
+        x.A = [a.reshape(sh) for a, sh in zip(x.A, o['shapes'])]
     return x
 
 
@@ -463,6 +589,36 @@ def _zpattern(pt):
 
 def _gi(c):
     return '(gi %s %s)' % (E.z(c[0]), E.z(c[1]))
+
+
+def _qcx(c):
+    c = complex(c)
+    assert c.real == int(c.real) and c.imag == int(c.imag), c
+    return '(qcx %s %s)' % (E.z(int(c.real)), E.z(int(c.imag)))
+
+
+def _qmx(a):
+    a = np.asarray(a)
+    return '(qmx %s %s %s)' % (E.nat(a.shape[0]), E.nat(a.shape[1]), E.lst([E.lst([_qcx(x) for x in row]) for row in a]))
+
+
+def _qmps(o):
+    return E.mps(_unser(o), _qmx).replace('mkmps', 'qmps')
+
+
+def _coq_zop(rec):
+    n = ' '.join(E.nat(x) for x in rec['args'])
+    op = rec['op']
+    if op == 'SplitMerge':
+        return '(QSplitMerge %s)' % n
+    if op == 'AddMps':
+        return '(QAddMps %s %s)' % (n, _qcx(complex(rec['alpha'][0], rec['alpha'][1])))
+    if op == 'SubMps':
+        return '(QSubMps %s)' % n
+    if op == 'NewMps':
+        return '(QNewMps %s %s %s (fun _ _ _ _ => %s))' % (n, E.zlist(rec['qd']), E.lst([E.zlist(q) for q in rec['qD']]),
+                                                            _qcx(complex(rec['fill'][0], rec['fill'][1])))
+    raise ValueError(op)
 
 
 def _coq_op(rec):
@@ -495,6 +651,15 @@ def coq(case, r):
             out = 'GOutErr' if rec['out'] == 'err' else ('(GOutMps %s)' % _gmps(rec['res']) if rec['out'] == 'mps' else '(GOutMpo %s)' % _gmpo(rec['res']))
             steps.append('(%s, %s)' % (_coq_op(rec), out))
         return 'Gcheck %s %s %s' % (_coq_pool(r['init']), E.lst(steps), _coq_pool(r['final']))
+    if case.get('kind') == 'zsplit':
+        if 'init' not in r or r.get('violations'):
+            return None
+        steps = []
+        for rec in r['steps']:
+            out = 'QOutErr' if rec['out'] == 'err' else '(QOutMps %s)' % _qmps(rec['res'])
+            steps.append('(%s, %s)' % (_coq_zop(rec), out))
+        pool = lambda pl: '(Qstate %s [])' % E.lst([_qmps(x) for x in pl['states']])
+        return 'zsplit_check %s %s %s' % (pool(r['init']), E.lst(steps), pool(r['final']))
     terms = ['(%s)' % _zpattern(pt) for pt in r.get('patterns', [])]
     terms += ['(boundary_eqb %s %s)' % (E.lst([E.zlist(t[0]), E.zlist(t[1])]), E.lst([E.zlist(t[2]), E.zlist(t[3])])) for t in r.get('totals', [])]
     if not terms:
@@ -503,6 +668,11 @@ def coq(case, r):
 
 
 def klass(case, r):
+    if case.get('kind') == 'zsplit':
+        tr = r.get('trace', [])
+        kinds = sorted({t.split('_')[1] for t in tr if t.startswith('split_')})
+        return 'zsplit/L%d/d%d/%s/%s/%dsplits' % (case['L'], case['d'], case['qclass'], '+'.join(kinds) or 'nosplit',
+                                                  sum(1 for t in tr if t.startswith('split_')))
     if case.get('kind') == 'ring':
         errs = sum(1 for x in r.get('steps', []) if x['out'] == 'err')
         return 'ring/L%d/d%d/%s/%dsteps/%derr' % (case['L'], case['d'], case['qclass'], len(r.get('steps', [])), errs)
@@ -513,6 +683,8 @@ def klass(case, r):
 
 
 def nontrivial(case, r):
+    if case.get('kind') == 'zsplit':
+        return sum(1 for t in r.get('trace', []) if t.startswith('split_')) >= 1
     if case.get('kind') == 'ring':
         return len([x for x in r.get('steps', []) if x['out'] != 'err']) >= 3
     return 'error' not in r and len({t for t in r['trace'] if not t.endswith('(skipped)')}) >= 3
